@@ -707,6 +707,36 @@ class C14(Suite):
         k = Fraction(3, 20000)
         if not (((1 - k) ** 2) * S <= r * r <= ((1 + k) ** 2) * S): return "hypot(raw %d, raw %d) = %d, true %.1f: relative error > 1.5e-4" % (a[0], a[1], r, math.sqrt(S))
         return None
+    def deep_search(self, tier, rng):
+        """only when the correspondence is broken and no recorded input violates the property: magnitude-matched
+        operand pairs (same binade, adjacent binades, sums that carry) in volume, on both sqrt back-ends"""
+        import fmlib
+        found = []
+        total = 3_000_000 if tier == "quick" else 30_000_000
+        for variant in (fmlib.V_DEFAULT, fmlib.V_ABACUS):
+            exe, _ = fmlib.build_harness(variant)
+            done = 0
+            while done < total and not found:
+                lines = []
+                for _ in range(500_000):
+                    k = rng.randrange(14, 47)
+                    a = rng.randrange(2**k, 2**(k + 1))
+                    c = rng.random()
+                    if c < 0.6: b = rng.randrange(2**k, 2**(k + 1))
+                    elif c < 0.8: b = rng.randrange(2**(k - 1), 2**k)
+                    else: b = rng.randrange(0, 2**rng.randrange(1, k + 1))
+                    lines.append("hypot:dflt %d %d" % (a, b))
+                done += len(lines)
+                o, rc, err = fmlib.run_parallel(exe, lines)
+                for l, io in zip(lines, o):
+                    r = parse_out(io)
+                    if r is None: continue
+                    fn, tag, a = parse_line(l)
+                    why = self.oracle(fn, tag, a, r)
+                    if why:
+                        found.append({"kind": "input", "input": l, "leg": variant.name, "observed": io, "why": why + " (found by the magnitude-matched deep search)"})
+                        if len(found) >= 5: return found
+        return found
     def post(self, res):
         bad = []
         for l, r in res.items():
